@@ -214,6 +214,32 @@ func buildCorpus(caseFiles []string, repo string, tier string, rng *rand.Rand) (
 		d, l := gen.BuildJPEG(segs)
 		items = append(items, item{Name: "jpeg:extra-com", Fmt: "jpeg", Data: d, L: l, Well: true})
 	}
+	{ // JPEG: a profile in 70 and in 200 chunks (more chunks than bits in a machine word), the frame
+		// header ahead of them, then 190 KiB of comments before the scan
+		for _, nch := range []int{64, 65, 70, 200} {
+			prof := gen.SimpleProfile(nch*40+17, "many chunks", true, uint32(nch))
+			segs := []gen.JSeg{gen.SOI(), gen.JFIF(), gen.SOF(0xC0, 8, 21, 34, gen.StdComps(3, 0x22))}
+			for q, part := range gen.SplitICC(prof, nch) {
+				segs = append(segs, gen.ICCSeg(byte(q+1), byte(nch), part))
+			}
+			for q := 0; q < 3; q++ {
+				segs = append(segs, gen.COM(gen.Payload(65533, uint32(q), true)))
+			}
+			segs = append(segs, gen.DQT(0), gen.DHT(0, 0), gen.SOS(3, gen.EntropyBytes(120, 5)), gen.EOI())
+			d, l := gen.BuildJPEG(segs)
+			items = append(items, item{Name: fmt.Sprintf("jpeg:extra-icc%d", nch), Fmt: "jpeg", Data: d, L: l, HasICC: true, Well: true})
+		}
+	}
+	// PNG: ancillary chunks whose length is at, just below and just above a multiple of 4096,
+	// ahead of a MiB of image data
+	for _, n := range []int{4095, 4096, 4097, 8192, 12288, 65536} {
+		c := concrete.Case{Fmt: "png", File: mustFile(fmt.Sprintf(`[{"t":"IHDR","w":9,"h":8,"d":8,"ct":2,"il":0},{"t":"anc","size":"pad:%d"},{"t":"IDAT"},{"t":"IEND"}]`, n))}
+		b := concrete.Build(c, 0)
+		items = append(items, item{Name: fmt.Sprintf("png:extra-anc%d", n), Fmt: "png", Data: b.Data, L: b.Layout, HasICC: b.HasICC, Well: true})
+		if d, l, ok := bigTail(c, b, 1<<20); ok {
+			items = append(items, item{Name: fmt.Sprintf("png:extra-anc%d+big", n), Fmt: "png", Data: d, Tail: 1 << 20, L: l, HasICC: b.HasICC, Well: true})
+		}
+	}
 	{ // inputs whose last structure has no payload at all, at the very end of the stream
 		sof := gen.SOF(0xC0, 8, 21, 34, gen.StdComps(3, 0x22))
 		a, _ := gen.BuildJPEG([]gen.JSeg{gen.SOI(), gen.JFIF(), sof, gen.COM(nil)})
@@ -398,8 +424,13 @@ func parallel(n int, fn func(i int)) {
 }
 
 func failOf(kind string) error {
-	if kind == "ioerr" {
+	switch kind {
+	case "ioerr":
 		return obs.ErrInjected
+	case "uxeof": // the source's own terminal condition happens to be a sentinel the readers also use
+		return io.ErrUnexpectedEOF
+	case "closedpipe":
+		return io.ErrClosedPipe
 	}
 	return io.EOF
 }
@@ -560,7 +591,10 @@ func loadsCmd(args []string) error {
 				continue
 			}
 			for ci, cut := range cutsFor(it, *tier, rng) {
-				for fi, fault := range []string{"eof", "ioerr"} {
+				for fi, fault := range []string{"eof", "ioerr", "uxeof", "closedpipe"} {
+					if fi >= 2 && (ci+fi)%3 != 0 && *tier != "thorough" {
+						continue
+					}
 					loaders := []string{it.Fmt, "auto"}
 					if it.Fmt == "junk" {
 						loaders = obs.LoaderNames
@@ -713,6 +747,33 @@ func loadsCmd(args []string) error {
 					jobs = append(jobs, job{cutIt, l})
 				}
 			}
+			// ... and the one that ends where the structure with the dimensions ends, and a byte later
+			for _, d := range []int{0, 1} {
+				if it.Well && it.L.HeaderEnd > 0 && it.L.HeaderEnd+d < len(it.Data) && len(it.Data) < 100000 {
+					cutIt := it
+					cutIt.Name, cutIt.Data = fmt.Sprintf("%s@hdrend+%d", it.Name, d), it.Data[:it.L.HeaderEnd+d]
+					for _, l := range loaders {
+						jobs = append(jobs, job{cutIt, l})
+					}
+				}
+			}
+		}
+		// PNGs whose metadata ends a little below a round size (1, 16, 32 MiB; 64 MiB in the thorough
+		// tier): what a reader holds for replay then depends on how far it has read ahead
+		bigSizes := []int{1 << 20, 16 << 20, 32 << 20}
+		if *tier == "thorough" {
+			bigSizes = append(bigSizes, 64<<20)
+		}
+		for _, lim := range bigSizes {
+			for _, below := range []int{1000, 3} {
+				d, l := gen.BuildPNG([]gen.PNGChunk{gen.IHDR(31, 17, 8, 6, 0), gen.Chunk("prVt", make([]byte, lim-below-53)),
+					gen.Chunk("IDAT", gen.Payload(300, 9, false)), gen.Chunk("IEND", nil)})
+				it := item{Name: fmt.Sprintf("png:metadata-ends-%d-below-%dMiB", below, lim>>20), Fmt: "png", Data: d, L: l, Well: true}
+				jobs = append(jobs, job{it, "png"})
+				if below == 1000 {
+					jobs = append(jobs, job{it, "auto"})
+				}
+			}
 		}
 		var mu sync.Mutex
 		parallel(len(jobs), func(i int) {
@@ -728,7 +789,7 @@ func loadsCmd(args []string) error {
 			if *tier != "thorough" {
 				stride = 37
 			}
-			for k := i % stride; k < len(comps); k += stride {
+			for k := i % stride; k < len(comps) && len(j.it.Data) < 4<<20; k += stride {
 				ss = append(ss, obs.Sched{Name: fmt.Sprintf("comp12/%d", k), Sizes: comps[k]})
 				if len(j.it.Data) > 4200 {
 					ss = append(ss, obs.Sched{Name: fmt.Sprintf("comp12@4090/%d", k), Sizes: comps[k], Offset: 4090})
@@ -739,7 +800,7 @@ func loadsCmd(args []string) error {
 			if *tier == "thorough" {
 				cutStep = 17
 			}
-			for c := 1 + i%cutStep; c < len(j.it.Data) && c <= 8192; c += cutStep {
+			for c := 1 + i%cutStep; c < len(j.it.Data) && c <= 8192 && len(j.it.Data) < 4<<20; c += cutStep {
 				ss = append(ss, obs.Sched{Name: fmt.Sprintf("cut%d", c), Sizes: []int{c, 0}})
 			}
 			outs := make([][2]string, 0, len(ss))
@@ -906,7 +967,7 @@ func loadsCmd(args []string) error {
 				if err := json.Unmarshal([]byte(l), &u); err != nil {
 					return err
 				}
-				if strings.HasPrefix(u.F, "ioerr") || seen[u.P+u.D+u.F] {
+				if !strings.HasPrefix(u.F, "eof") || seen[u.P+u.D+u.F] {
 					continue
 				}
 				seen[u.P+u.D+u.F] = true
@@ -949,6 +1010,13 @@ func loadsCmd(args []string) error {
 			ev := map[string]interface{}{"item": j.it.Name, "n": len(j.it.Data), "cut": j.cut, "sched": j.s.Name, "shape": shape}
 			for _, loader := range obs.LoaderNames {
 				src := obs.NewSource(j.it.Data, j.cut, nil, j.s).WithShape(shape)
+				if loader == "auto" {
+					// the caller reads the returned stream in pieces of its own choosing, or reads some
+					// and io.Copy's the rest
+					src.DrainBuf = []int{0, 1, 7, 512, 4096, 4097}[i%6]
+					src.DrainCopyAfter = []int{-1, 12, 0, -1, 5000, 1, -1}[i%7]
+					ev["drain_buf"], ev["drain_copy_after"] = src.DrainBuf, src.DrainCopyAfter
+				}
 				o := obs.Run(loader, src, loader == "auto", false)
 				ev[loader] = o.Outcome()
 				if loader == "auto" {
